@@ -20,6 +20,16 @@ CHECKS = {
    text="Generated-input search: ~9.5k small grammars x all strings over {a,b,c} up to length 4 (quick) / 5 (thorough) plus 60k / 800k random (grammar, input) pairs of the C01/C02 classes with validate, recover_with, memoized and labelled nodes; on every case the raw ParseResult of parse() and check(), with Rich and with EmptyErr, is tested for the four implications of the statement, error-free output <=> reference matches the entire input, every one-token extension of an accepted input is rejected unless the reference matches it, and g.lazy() accepts iff the reference matches a prefix. Exploration within these bounds.",
    note="Trusted: the reference PEG evaluator for 'entire input matched'; panics inside recovery strategies are left to C20 (counted).",
    design="DESIGN.md section 4, C03"),
+ "C05": dict(
+   technique="property-based differential testing of the reported error list and of Inspector user state against the surviving-path emissions computed by a reference semantics (generated grammars with emitters at every backtracking site; exhaustive templates x short strings + proptest-driven random tier)",
+   text="Generated-input search: 42 hand-shaped templates (one per backtracking site: choice tuple/Vec/array, or, or_not, not, and_is, rewind, repeated fast/counted loop, folds, the four separated_by exits, custom-consumes-then-fails, abandoned and nested recovery) x every string over {a,b,c} up to length 6 (quick) / 8 (thorough), plus 150k / 2M random C01/C02-class grammars with validate emitters, recover_with nodes, state pushes and consuming-then-failing custom parsers; whenever there is an output, errors() must equal as a sequence the emissions of the surviving path and the Inspector log the surviving pushes, for parse and for check. Exploration within these bounds.",
+   note="Trusted: the reference (an abandoned attempt returns nothing, by construction); content of recovered errors is C08's. Emitters are not generated inside the right-hand side of and_is. F2 (and_is/rewind dropped kept emissions) was found by this check and fixed in /repo (7fea062).",
+   design="DESIGN.md section 4, C05"),
+ "C06": dict(
+   technique="property-based differential testing of the last reported error against a never-rolled-back failure-event log kept by a reference semantics (position, expected-set union, user-error preservation), plus oracle-free span/found well-formedness and cross-error-type agreement; exhaustive small grammars x short strings + proptest-driven random tier",
+   text="Generated-input search over rejected inputs: ~7.1k small grammars (incl. repetitions and 19 templates aimed at each failure-bookkeeping site) x every string over {a,b,c} up to length 4 (quick) / 6 (thorough), plus 300k / 4M random (grammar, input) pairs (strict and general class, no `not`); the last Rich error must start exactly at the furthest failure event, carry the union of the expectations at that position or the user-supplied error there, have a well-formed span and a truthful `found`; Cheap and Simple must report the same span (Simple the same found), EmptyErr exactly one error. Exploration within these bounds.",
+   note="Trusted: the reference's event positions (primitive mismatch at the offending token, semantic rejection at the start of the rejected match). Content comparison is skipped (counted) where a failure event lies inside a rejected filter/try_map. F4 and F5/F10 were found by this check and fixed in /repo (d8e9691, 72acc61).",
+   design="DESIGN.md section 4, C06"),
 }
 
 NOT_YET = {}
